@@ -62,6 +62,9 @@ pub struct GenCfg {
     pub sub_before_super: bool,
     /// tables created by dotted keys may have `[header]` / `[[header]]` children
     pub sections_under_dotted: bool,
+    /// restrict keys, values and spellings to what is both TOML and a sequence of Rust tokens the
+    /// `toml!` macro takes (C19)
+    pub rust_tokens: bool,
 }
 
 impl Default for GenCfg {
@@ -81,6 +84,7 @@ impl Default for GenCfg {
             allow_ml: true,
             sub_before_super: true,
             sections_under_dotted: true,
+            rust_tokens: false,
         }
     }
 }
@@ -162,7 +166,13 @@ struct G<'a, 't> {
 impl G<'_, '_> {
     fn key(&mut self, used: &[(String, GNode)]) -> Option<String> {
         for _ in 0..4 {
-            let k = if self.cfg.plain_keys { self.t.pick(&KEY_POOL).to_string() } else { gen_key(self.t) };
+            let k = if self.cfg.rust_tokens {
+                self.t.pick(&RUST_KEYS).to_string()
+            } else if self.cfg.plain_keys {
+                self.t.pick(&KEY_POOL).to_string()
+            } else {
+                gen_key(self.t)
+            };
             if !used.iter().any(|(u, _)| *u == k) && !k.starts_with("$__") {
                 return Some(k);
             }
@@ -172,6 +182,9 @@ impl G<'_, '_> {
 
     fn scalar(&mut self) -> Node {
         self.budget -= 1;
+        if self.cfg.rust_tokens {
+            return gen_rust_scalar(self.t);
+        }
         if self.cfg.plain_leaves {
             return match self.t.below(4) {
                 0 => Node::Int(self.t.range(-5, 100)),
@@ -630,6 +643,9 @@ impl Em<'_, '_> {
     /// spelling of one key segment; table-naming keys that occur several times get one fixed
     /// spelling (F11 exclusion)
     fn key_spelling(&mut self, name: &str, id: Option<&KeyId>) -> String {
+        if self.cfg.rust_tokens {
+            return spell_rust_key(name);
+        }
         if let Some(id) = id {
             if self.cfg.f11_safe && self.multi.get(id).copied().unwrap_or(0) > 1 {
                 if let Some(s) = self.spelled.get(id) {
@@ -689,6 +705,18 @@ impl Em<'_, '_> {
     }
 
     fn scalar(&mut self, n: &Node) {
+        if self.cfg.rust_tokens {
+            let tok = spell_rust_scalar(n, self.t);
+            self.class(match n {
+                Node::Str(_) => "str-basic",
+                Node::Int(_) => "int-dec",
+                Node::Float(_) => "float-sci",
+                Node::Bool(_) => "bool",
+                _ => "dt-offset",
+            });
+            self.put(&tok);
+            return;
+        }
         match n {
             Node::Str(s) => {
                 let (tok, kind) = spell_string(s, self.t, self.cfg.allow_ml);
